@@ -2,11 +2,11 @@
 # seeded_sweep.sh [ids...]: for every seeded change run the check of the property it breaks against a scratch copy of
 # /repo's sources with the change applied (tools/mutrun.sh), and print one line per change: caught / missed / n/a
 cd "$(dirname "$0")/.."
-ids=${@:-$(ls seeded)}
+D=${SEEDED_DIR:-seeded}; ids=${@:-$(ls $D)}
 for id in $ids; do
-  [ -f seeded/$id/patch.diff ] || continue
-  prop=$(python3 -c "import json;print(json.load(open('seeded/$id/meta.json'))['breaks_property'])")
-  out=$(tools/mutrun.sh seeded/$id/patch.diff $prop quick 2>&1); rc=$?
+  [ -f $D/$id/patch.diff ] || continue
+  prop=$(python3 -c "import json;print(json.load(open('$D/$id/meta.json'))['breaks_property'])")
+  out=$(tools/mutrun.sh $D/$id/patch.diff $prop quick 2>&1); rc=$?
   if [ $rc -eq 1 ]; then verdict=caught; elif [ $rc -eq 0 ]; then verdict=MISSED; else verdict="n/a(rc=$rc)"; fi
   echo "$id $prop $verdict :: $(echo "$out" | grep -m1 'why:' | cut -c1-220)"
 done
